@@ -87,6 +87,7 @@ type Machine struct {
 	preempt     int
 	conc        map[string]int64 // expressions already pinned on this path
 	reached     map[string]bool
+	outcomes    [][2]string // verifOutcome(key, outcome) calls of this path
 	known       []knownTag
 	obls        int // obligations discharged on this path
 	frames      []string
